@@ -257,9 +257,45 @@ def _worker(args):
                 stats["first_op_jump_ok"] += 1
         if not results and len(samples) < 2 and tag.startswith("prog"):
             samples.append(rs)
-        for clause, symptom, detail, observed in results:
-            coll.add(f"C02:{symptom}{K.seeded_suffix(tag)}", f"decompile/recompile: {symptom} -- {detail}", rs, clause, {"detail": detail, "text": observed}, {"tag": tag})
+        for sig, what, clause, observed, extra in signatures_for(rs, tag, results):
+            coll.add(sig, what, rs, clause, observed, extra)
     return {"n": n, "hashes": hashes, "nontrivial": nontrivial, "viol": coll.by_sig, "counter": counter, "stats": stats, "samples": samples}
+
+
+def signatures_for(rs: dict, tag: str, results: list) -> list[tuple[str, str, str, Any, dict]]:
+    """[(signature, what, contract, observed, extra input fields)] of one evaluated input.
+    Inputs of the seed-independent families: `C02:<symptom>`.  Inputs of the seed-dependent families: the lossy spellings keep
+    their (predicate) signature + `:seeded-input`; any other failure is shrunk and classified (classify_seeded):
+    `C02:<prefix>:known-mechanism:<mechanism>:seeded-input` or `C02:<prefix>:unclassified:<kind>:seeded-input` (with the shrunk
+    witness in the record) - the latter is by construction never a listed finding."""
+    out = []
+    if not results:
+        return out
+    if not K.is_seeded(tag):
+        return [(f"C02:{symptom}", f"decompile/recompile: {symptom} -- {detail}", clause, {"detail": detail, "text": observed}, {"tag": tag}) for clause, symptom, detail, observed in results]
+    other = [r for r in results if not is_lossy_symptom(r[1])]
+    mech = small = None
+    if other:
+        mech, small, _kind = classify_seeded(rs, [r[1] for r in other])
+    for clause, symptom, detail, observed in results:
+        prefix = symptom.split(":", 1)[0]
+        if is_lossy_symptom(symptom):
+            sig = f"C02:{symptom}{K.SEEDED_SUFFIX}"
+            extra = {"tag": tag}
+        elif mech is not None:
+            sig = f"C02:{prefix}:known-mechanism:{mech}{K.SEEDED_SUFFIX}"
+            extra = {"tag": tag, "shrunk": small}
+        else:
+            sig = f"C02:unclassified:{kind_of(symptom)}{K.SEEDED_SUFFIX}"
+            extra = {"tag": tag, "shrunk": small}
+        out.append((sig, f"decompile/recompile (seed-dependent input, shrunk witness in the record): {symptom} -- {detail}", clause, {"detail": detail, "text": observed, "shrunk_input": small}, extra))
+    # one violation per signature and input
+    seen, uniq = set(), []
+    for item in out:
+        if item[0] not in seen:
+            seen.add(item[0])
+            uniq.append(item)
+    return uniq
 
 
 def _has_jump(rs: dict) -> bool:
@@ -351,4 +387,291 @@ def replay(record: dict, ctx: Ctx) -> bool:
     want = record["signature"]
     results, _ = check(rs)
     tag = record["input"].get("tag", "")
-    return any(f"C02:{symptom}{K.seeded_suffix(tag)}" == want for _c, symptom, _d, _o in results)
+    return any(sig == want for sig, _w, _c, _o, _e in signatures_for(rs, tag, results))
+
+
+# ------------------------------------------------------------------------------------------------ seed-dependent inputs
+# A failing input of a seed-dependent family (random op list, random program, its re-layouts) cannot be listed by member id.
+# It only gets the signature of a known residual mechanism if, after shrinking, a decidable predicate on the shrunk input says
+# that it is an instance of that mechanism; everything else gets a generic `unclassified` signature (never a known finding).
+
+
+def is_lossy_symptom(symptom: str) -> bool:
+    return any(symptom.endswith(x) for x in KNOWN_LOSSY_SPELLINGS)
+
+
+def kind_of(symptom: str) -> str:
+    """Coarse kind of a symptom, stable under shrinking (no shape token, no position)."""
+    parts = symptom.split(":")
+    if parts[0] == "convert-raises":
+        return symptom
+    if parts[0] in ("recompile-rejects", "recompiled-header"):
+        return ":".join(parts[:-1])
+    if parts[0] == "text-semantics" and parts[1].startswith(("statically-invalid", "not-explorerscript-syntax", "header")):
+        return ":".join(parts[:-1])
+    return parts[0] + ":behaviour"
+
+
+def _anchor(symptom: str, detail: str) -> str:
+    i = detail.find("then LEFT does ")
+    if i < 0:
+        return kind_of(symptom)
+    j = detail.find("  (LEFT = ", i)
+    return symptom.split(":", 1)[0] + "|" + detail[i : j if j > 0 else None]
+
+
+def _flow(rs: dict):
+    """Global flow graph of a JSON routine set: ops, succ (machine model), routine entries, (routine, index) of every node."""
+    from explorerscript.ssb_converting.ssb_special_ops import OPS_WITH_JUMP_TO_MEM_OFFSET
+    from gen.ssb import STOP_OPS
+
+    ops, where, pos = [], [], {}
+    for ri, r in enumerate(rs["routines"]):
+        for oi, o in enumerate(r["ops"]):
+            pos[o[0]] = len(ops)
+            ops.append(o)
+            where.append((ri, oi))
+    succ = []
+    for k, (off, name, ps) in enumerate(ops):
+        ri, oi = where[k]
+        last = oi + 1 >= len(rs["routines"][ri]["ops"])
+        s = []
+        if name in OPS_WITH_JUMP_TO_MEM_OFFSET:
+            t = pos.get(ps[OPS_WITH_JUMP_TO_MEM_OFFSET[name]])
+            if t is not None:
+                s.append(t)
+            if name != "Jump" and not last:
+                s.append(k + 1)
+        elif name not in STOP_OPS and not last:
+            s.append(k + 1)
+        succ.append(s)
+    entries = [pos[r["ops"][0][0]] for r in rs["routines"] if r["ops"]]
+    return ops, succ, entries, where
+
+
+def _skip_jumps(ops, succ, k):
+    seen = set()
+    while ops[k][1] == "Jump" and succ[k] and k not in seen:
+        seen.add(k)
+        k = succ[k][0]
+    return k
+
+
+def _reach(succ, start, blocked=()):
+    seen, stack = set(), [start]
+    while stack:
+        n = stack.pop()
+        if n in seen or n in blocked:
+            continue
+        seen.add(n)
+        stack.extend(succ[n])
+    return seen
+
+
+def _dominators(succ, entry):
+    nodes = _reach(succ, entry)
+    dom = {n: set(nodes) for n in nodes}
+    dom[entry] = {entry}
+    preds = {n: [] for n in nodes}
+    for n in nodes:
+        for s in succ[n]:
+            if s in preds:
+                preds[s].append(n)
+    changed = True
+    while changed:
+        changed = False
+        for n in nodes:
+            if n == entry:
+                continue
+            new = set.intersection(*(dom[p] for p in preds[n])) | {n} if preds[n] else {n}
+            if new != dom[n]:
+                dom[n] = new
+                changed = True
+    return dom
+
+
+def is_branch_with_equal_successors_in_loop(rs: dict) -> bool:
+    """(3) a Branch* op whose taken and not-taken successor are the same op once Jumps are skipped (at least one side runs through
+    a Jump op)."""
+    from explorerscript.ssb_converting.ssb_special_ops import OPS_BRANCH
+
+    ops, succ, _entries, _w = _flow(rs)
+    for k, (off, name, ps) in enumerate(ops):
+        if name in OPS_BRANCH and len(succ[k]) == 2:
+            a, b = _skip_jumps(ops, succ, succ[k][0]), _skip_jumps(ops, succ, succ[k][1])
+            if a == b and (ops[succ[k][0]][1] == "Jump" or ops[succ[k][1]][1] == "Jump"):
+                return True
+    return False
+
+
+def is_jump_back_to_non_dominating_loop_head(rs: dict) -> bool:
+    """(2) below a Branch* op an unconditional Jump (or the branch itself) goes BACK to an op that lies on a cycle with it but does
+    not dominate it (the loop has a second way in), i.e. the join of the two branch sides is only reached over a back edge."""
+    from explorerscript.ssb_converting.ssb_special_ops import OPS_BRANCH
+
+    ops, succ, entries, where = _flow(rs)
+    if not any(o[1] in OPS_BRANCH for o in ops):
+        return False
+    for e in entries:
+        dom = _dominators(succ, e)
+        for k in dom:
+            name = ops[k][1]
+            if name != "Jump" and name not in OPS_BRANCH:
+                continue
+            t = succ[k][0] if succ[k] else None
+            if t is None or where[t][0] != where[k][0] or where[t][1] > where[k][1]:
+                continue  # not a backward jump inside the routine
+            if t in dom and k in _reach(succ, t) and t not in dom[k]:
+                return True
+    return False
+
+
+def is_if_join_in_sibling_case_body(rs: dict) -> bool:
+    """(1) a switch (switch-like op followed by its case ops) and a Branch* op in the body of one case (or of the default) one of
+    whose successors (not reachable otherwise from the branch's own case entry) is an op in the MIDDLE of a block that is written
+    somewhere else: the body of another case, or code that is reachable from the routine entry without running through the switch."""
+    from explorerscript.ssb_converting.ssb_special_ops import OPS_BRANCH, OPS_SWITCH_CASE_MAP
+    from gen.ssb import CASE_OPS
+
+    ops, succ, _entries, where = _flow(rs)
+    for k, (off, name, ps) in enumerate(ops):
+        if name not in OPS_SWITCH_CASE_MAP:
+            continue
+        cases = []
+        j = k + 1
+        while j < len(ops) and where[j][0] == where[k][0] and ops[j][1] in CASE_OPS:
+            cases.append(j)
+            j += 1
+        if not cases or j >= len(ops) or where[j][0] != where[k][0]:
+            continue
+        entry_nodes = sorted({_skip_jumps(ops, succ, succ[c][0]) for c in cases if succ[c]} | {_skip_jumps(ops, succ, j)})
+        if len(entry_nodes) < 2:
+            continue
+        # body of an entry: what it reaches without running through another entry
+        body = {e: _reach(succ, e, blocked=[x for x in entry_nodes if x != e]) for e in entry_nodes}
+        for e in entry_nodes:
+            for b in body[e]:
+                if ops[b][1] not in OPS_BRANCH or len(succ[b]) != 2:
+                    continue
+                for s in succ[b]:
+                    n = _skip_jumps(ops, succ, s)
+                    own_without_branch = _reach(succ, e, blocked=[x for x in entry_nodes if x != e] + [b])
+                    if n in own_without_branch or n in entry_nodes:
+                        continue
+                    # n lies in the middle of the body of another case ...
+                    if any(e2 != e and n in body[e2] for e2 in entry_nodes):
+                        return True
+                    # ... or in a block outside the switch that is written on its own (reachable without running through the switch)
+                    routine_entry = next(x for x in range(len(ops)) if where[x] == (where[k][0], 0))
+                    if n in _reach(succ, routine_entry, blocked=[k]):
+                        return True
+    return False
+
+
+def is_code_behind_terminator_targeted_in_file_with_call(rs: dict) -> bool:
+    """(4) the file contains a Call op (the decompiler then continues the flow past Return/End/Hold) and a jumping op targets an op
+    that directly follows a Return/End/Hold: that code is written behind the terminator in the same block."""
+    from explorerscript.ssb_converting.ssb_special_ops import OPS_WITH_JUMP_TO_MEM_OFFSET
+
+    ops, succ, _entries, where = _flow(rs)
+    if not any(o[1] == "Call" for o in ops):
+        return False
+    for k, (off, name, ps) in enumerate(ops):
+        if name in OPS_WITH_JUMP_TO_MEM_OFFSET and succ[k]:
+            t = succ[k][0]
+            if where[t][1] > 0 and where[t - 1][0] == where[t][0] and ops[t - 1][1] in ("Return", "End", "Hold"):
+                return True
+    return False
+
+
+# (name, predicate on the shrunk input, symptoms the shrunk input may show through the compiler when it is an instance)
+MECHANISMS = (
+    ("if-join-in-block-written-elsewhere", is_if_join_in_sibling_case_body, r"recompiled-behaviour:(later:stops\((Hold|Return|End)\)-where-input-continues:.*|differs-later:(call|first-op-jump))"),
+    ("jump-back-to-non-dominating-loop-head", is_jump_back_to_non_dominating_loop_head, r"recompiled-behaviour:(later:stops\(Return\)-where-input-continues:.*|differs-later:(call|first-op-jump))"),
+    ("code-behind-terminator-targeted-in-file-with-call", is_code_behind_terminator_targeted_in_file_with_call, r"recompiled-behaviour:differs-(later|at-routine-entry):call"),
+    ("branch-with-equal-successors", is_branch_with_equal_successors_in_loop, r"recompiled-behaviour:(later:(?!stops).*|differs-later:(call|first-op-jump))"),
+)
+
+
+def shrink(rs: dict, still_fails) -> dict:
+    """Greedy shrinking of a routine set: drop whole routines that nothing jumps into, then single ops (jumps to a dropped op go to
+    the op after it), as long as the input stays well formed and `still_fails` holds.  Result has dense offsets."""
+    import copy
+
+    from gen import ssb
+
+    sym = ssb.to_sym(rs)
+
+    def try_layout(cand):
+        try:
+            out = ssb.layout(cand, "dense")
+        except Exception:  # noqa: BLE001  (a jump lost its target)
+            return None
+        return out if ssb.rs_well_formed(out) and still_fails(out) else None
+
+    changed = True
+    while changed:
+        changed = False
+        # whole routines (never the first one: aliases need a predecessor)
+        for ri in range(len(sym["routines"]) - 1, 0, -1):
+            if any(t is not None and t[0] == ri for r2i, r2 in enumerate(sym["routines"]) if r2i != ri for _n, _p, t in r2["ops"]):
+                continue
+            cand = copy.deepcopy(sym)
+            del cand["routines"][ri]
+            for r2 in cand["routines"]:
+                for op in r2["ops"]:
+                    if op[2] is not None and op[2][0] > ri:
+                        op[2][0] -= 1
+            if try_layout(cand) is not None:
+                sym, changed = cand, True
+                break
+        if changed:
+            continue
+        for ri in range(len(sym["routines"])):
+            n = len(sym["routines"][ri]["ops"])
+            for oi in range(n):
+                if n <= 1:
+                    break
+                cand = copy.deepcopy(sym)
+                cops = cand["routines"][ri]["ops"]
+                del cops[oi]
+                for r2 in cand["routines"]:
+                    for op in r2["ops"]:
+                        t = op[2]
+                        if t is not None and t[0] == ri:
+                            if t[1] > oi:
+                                t[1] -= 1
+                            elif t[1] == oi and t[1] >= len(cops):
+                                t[1] = len(cops) - 1
+                if try_layout(cand) is not None:
+                    sym, changed = cand, True
+                    break
+            if changed:
+                break
+    return ssb.layout(sym, "dense")
+
+
+def classify_seeded(rs: dict, symptoms: list[str]) -> tuple[str | None, dict, str]:
+    """For a failing seed-dependent input: (mechanism or None, shrunk input, kind). The input is shrunk while a failure of the same
+    kind persists (the lossy spellings do not count), then the predicates of the known residual mechanisms are evaluated on the
+    shrunk input."""
+    import re
+
+    kinds = {kind_of(s) for s in symptoms}
+    # Anchor of the failure: for a behavioural difference the two things done at the first difference (they carry the names and
+    # parameters of the ops involved), otherwise the kind. Shrinking must keep THIS difference, so that it cannot drift from the
+    # defect that made the input fail to some other (perhaps known) defect of a smaller input.
+    first, _st = check(rs)
+    anchors = {_anchor(s, d) for _c, s, d, _o in first if not is_lossy_symptom(s)}
+
+    def still_fails(x: dict) -> bool:
+        res, _ = check(x)
+        return any(_anchor(s, d) in anchors for _c, s, d, _o in res if not is_lossy_symptom(s))
+
+    small = shrink(rs, still_fails)
+    res, _ = check(small)
+    shown = [s for _c, s, _d, _o in res if s.startswith("recompiled-behaviour") and not is_lossy_symptom(s)]
+    for name, pred, symptom_rx in MECHANISMS:
+        if pred(small) and any(re.fullmatch(symptom_rx, s) for s in shown):
+            return name, small, sorted(kinds)[0]
+    return None, small, sorted(kinds)[0]
